@@ -804,6 +804,10 @@ func (k msgServer) MintCreateNftTx(goCtx context.Context, msg *types.MsgMintCrea
 func (k msgServer) MintIssueTx(goCtx context.Context, msg *types.MsgMintIssueTx) (*types.MsgMintIssueTxResponse, error) {
 	ctx := sdk.UnwrapSDKContext(goCtx)
 	sender := sdk.MustAccAddressFromBech32(msg.Sender)
+	// the bond denom is created only by block inflation and UBI payouts
+	if msg.Denom == k.keeper.DefaultDenom(ctx) {
+		return nil, types.ErrBondDenomNotMintable
+	}
 	tokenInfo := k.keeper.tk.GetTokenInfo(ctx, msg.Denom)
 	if tokenInfo.Denom == "" {
 		return nil, types.ErrTokenNotRegistered
